@@ -67,6 +67,8 @@ INDEX = {
  ]},
  "C15": {"package": ".", "harnesses": [
    {"name": "VerifH15Algebra", "common": {"max_depth": 3000}, "quick": {"bounds": {"bits": 3, "trees": 9, "colhis": 1}}, "thorough": {"bounds": {"bits": 4, "trees": 9, "colhis": 2}}},
+   {"name": "VerifH15Shards", "common": {"max_depth": 3000}, "quick": {"bounds": {"bits": 3, "trees": 4}}, "thorough": {"bounds": {"bits": 4, "trees": 4}}},
+   {"name": "VerifH15Shift", "package": "./roaring", "common": {"max_depth": 3000}, "quick": {"bounds": {"kinds": 1, "typs": 3, "array": 2, "runs": 2, "words": 1, "near": 1}}, "thorough": {"bounds": {"kinds": 2, "typs": 3, "array": 3, "runs": 2, "words": 1, "near": 1}}},
  ]},
  "C16": {"package": ".", "harnesses": [
    {"name": "VerifH16Rows", "common": {"max_depth": 3000}, "quick": {"bounds": {"steps": 2, "ops": 9, "rows": 2, "colhis": 1, "caches": 1}}, "thorough": {"bounds": {"steps": 2, "ops": 9, "rows": 4, "colhis": 2, "caches": 3}}},
@@ -90,7 +92,7 @@ INDEX = {
    {"name": "VerifH21FragSources", "common": {"max_depth": 3000}, "quick": {"bounds": {"nodes": 1, "replicas": 2, "shards": 2}}, "thorough": {"bounds": {"nodes": 2, "replicas": 2, "shards": 3}}},
  ]},
  "C22": {"package": ".", "harnesses": [
-   {"name": "VerifH22Completions", "common": {"max_depth": 3000}, "quick": {"bounds": {"messages": 3}}},
+   {"name": "VerifH22Completions", "common": {"max_depth": 3000}, "quick": {"bounds": {"events": 3}}, "thorough": {"bounds": {"events": 4}}},
  ]},
  "C23": {"package": ".", "harnesses": [
    {"name": "VerifH23Gate", "common": {"max_depth": 3000}, "quick": {"bounds": {}}},
